@@ -10,10 +10,20 @@ import ast
 
 from .. import astutil as A
 from ..fa import FA
-from .cache_model import CacheModel, self_attr, CACHE_CLASS
+from ..loader import AnalysisError
+from .cache_model import CacheModel, self_attr, CACHE_CLASS, safe_expand
 
 RL = "runner_local"
 FORBIDDEN_UNDER_LEAF_LOCK = ("_mutex_for_invocation", "memento_run_local", "memento_run_batch", "_filter_call", "batch_run")
+
+
+def _xs(fa: FA, e, at) -> str:
+    """name-independent text of `e` evaluated at `at` (plain text where the code is unreachable on the explicit-edge CFG)"""
+    ids = fa.nodes(at)
+    try:
+        return fa.xnorm(e, ids[0]) if ids else A.norm(e)
+    except AnalysisError:
+        return A.norm(e)
 
 
 def _with_blocks(fa: FA, pred):
@@ -326,7 +336,7 @@ def check(ck):
 
         for r in rets:
             # what is returned, through any temporaries: TABLE[(qualified name, arg hash)]
-            v = mi.expand(r.value)
+            v = safe_expand(mi, r.value, r)
             if isinstance(v, ast.Subscript) and A.norm(v.value) == table:
                 okk = [A.norm(e) for e in (v.slice.elts if isinstance(v.slice, ast.Tuple) else [v.slice])] == want
             else:
@@ -334,7 +344,7 @@ def check(ck):
                 keys = [_key_elts(t.slice, st) for st in mi.stmts(ast.Assign) for t in st.targets if isinstance(t, ast.Subscript) and A.norm(t.value) == table]
                 keys += [_key_elts(c.args[0], c) for c in mi.calls() if A.call_attr(c) in ("get", "setdefault") and A.norm(A.call_recv(c)) == table and c.args]
                 keys += [_key_elts(x.slice, x) for x in A.walk_body(mi.node) if isinstance(x, ast.Subscript) and isinstance(x.ctx, ast.Load) and A.norm(x.value) == table]
-                dv = mi.deps(r.value)
+                dv = mi.deps(r.value) if mi.nodes(r) else set()
                 okk = bool(keys) and all(k == want for k in keys) and \
                     ("global:" + table in dv or "call:get" in dv or "call:setdefault" in dv)
             ck.ob(R2, mi.key(r, "mutex-key"), okk, "one mutex per (versioned function name, argument hash)" if okk else
@@ -349,14 +359,14 @@ def check(ck):
     def holds_own_mutex(e):
         if isinstance(e, ast.Name) and rl.nodes(e):
             # `m = _mutex_for_invocation(x)` ... `with m:`
-            x0 = rl.expand(e)
+            x0 = safe_expand(rl, e)
             if not isinstance(x0, ast.Name):
                 return holds_own_mutex(x0)
         if isinstance(e, ast.Call) and A.call_attr(e) in holders and [A.norm(a) for a in e.args] == [inv]:
             return True
         if not helper_exists:
             # `m = TABLE[(qualified name, arg hash)]` under the table lock, then `with m:`
-            x = rl.expand(e) if rl.nodes(e) else e
+            x = safe_expand(rl, e)
             if isinstance(x, ast.Subscript) and isinstance(x.value, ast.Name) and x.value.id == table:
                 return True
             if isinstance(x, ast.Call) and A.call_attr(x) in ("get", "setdefault") and isinstance(A.call_recv(x), ast.Name) and A.call_recv(x).id == table:
@@ -416,7 +426,7 @@ def check(ck):
         st = fa.stmt_of(c)
         # the new stack is bound to an attribute of the thread-local object (named directly or through a local alias)
         ok = fi.qual == "call_stack.CallStack.get" and isinstance(st, ast.Assign) and tl and st.value is c and \
-            all(isinstance(t, ast.Attribute) and t.attr == "call_stack" and fa.nodes(st) and fa.xnorm(t.value, fa.nodes(st)[0]) == tl[0] for t in st.targets)
+            all(isinstance(t, ast.Attribute) and t.attr == "call_stack" and _xs(fa, t.value, st) == tl[0] for t in st.targets)
         ck.ob(R5, fa.key(c, "created-into-thread-local"), bool(ok), "a new CallStack goes straight into thread-local storage" if ok else
               "a CallStack is created outside CallStack.get / not stored in thread-local storage", fa.where(c))
     shared = []
@@ -435,7 +445,7 @@ def check(ck):
           "a call stack / frame container is shared across threads: %s" % (shared[0],), shared[0][0] if shared else cs.relpath)
     g = FA(ck, "call_stack.CallStack.get")
     rets = g.returns()
-    okg = bool(rets) and tl and all(r.value is not None and g.xnorm(r.value) == tl[0] + ".call_stack" for r in rets)
+    okg = bool(rets) and tl and all(r.value is not None and _xs(g, r.value, r) == tl[0] + ".call_stack" for r in rets)
     ck.ob(R5, g.key(None, "get-returns-thread-local"), bool(okg), "CallStack.get returns the calling thread's stack" if okg else
           "CallStack.get does not return the thread-local stack", g.where())
     ini = FA(ck, "call_stack.CallStack.__init__")
